@@ -63,10 +63,17 @@ func NewDB(conn *sql.DB, schema *Schema) *DB {
 		Many: func(ctx context.Context, items []interface{}) ([]interface{}, error) {
 			table := items[0].(*BaseSelectQuery).Table
 
-			// First, build the SQL query.
+			// First, build the SQL query. Filter values are converted to the driver
+			// values of their columns, like a non-batched query does, so that the
+			// SQL arguments and the matching below do not depend on the Go type a
+			// value was given in (int vs int64, pointers, named and tagged types).
 			filters := make([]Filter, 0, len(items))
 			for _, item := range items {
-				filters = append(filters, item.(*BaseSelectQuery).Filter)
+				filter, err := table.driverValues(item.(*BaseSelectQuery).Filter)
+				if err != nil {
+					return nil, err
+				}
+				filters = append(filters, filter)
 			}
 			clause, args := makeBatchQuery(filters)
 			query, err := db.Schema.makeSelect(table.Type, nil, &SelectOptions{
@@ -95,17 +102,19 @@ func NewDB(conn *sql.DB, schema *Schema) *DB {
 
 			// Finally, match the returned rows against the queries.
 			matcher := newMatcher()
-			for i, item := range items {
-				query := item.(*BaseSelectQuery)
-				// XXX: This needs more rigor, and a test. For now, call coerceMap on rows
-				// and filters to flatten out all pointers to values, etc., to copy what
-				// the row tester does when matching against the binlog. This way, a filter
-				// specifying age=48 will match a value *age=48.
-				matcher.add(i, coerceMap(query.Filter))
+			for i := range items {
+				// Match on driver values, as the row tester does when matching against
+				// the binlog. This way, a filter specifying age=48 will match a value
+				// *age=int64(48).
+				matcher.add(i, matchableValues(filters[i]))
 			}
 			results := make([][]interface{}, len(items))
 			for _, row := range rows {
-				f := coerceMap(table.extractRow(row))
+				rowValues, err := table.driverValues(table.extractRow(row))
+				if err != nil {
+					return nil, err
+				}
+				f := matchableValues(rowValues)
 				for _, idx := range matcher.match(f) {
 					i := idx.(int)
 					results[i] = append(results[i], row)
